@@ -13,7 +13,7 @@ DEC_WORK = [0.0, 0.1, 0.3, 0.7, 1.0, 1.1, 2.0, 2.5, 3.3]
 DEC_SKILL = [0.1, 0.3, 0.7, 1.0, 1.1]
 DEC_COST = [0.0, 0.1, 1.0, 3.3, 7.7]
 SIZES = [0.5, 1.0, 1.0, 1.0, 2.0]
-CAPS = [0.5, 1.0, 1.0, 1.5, 2.0, 3.0]
+CAPS = [0.0, 0.5, 1.0, 1.0, 1.5, 2.0, 3.0]
 N_TASK_W = [(1, 4), (2, 14), (3, 20), (4, 20), (5, 16), (6, 11), (7, 8), (8, 7)]
 
 
@@ -61,6 +61,9 @@ def gen_profile(rng, focus=None):
     p["reg_shuffle"] = rng.random() < 0.3  # teams/workplaces register their targets in another order than the organization lists
     p["ctor_targets"] = rng.random() < 0.2  # a team gets its targets through the constructor (registered on the team side only)
     p["assign_style"] = rng.random() < 0.15  # workers built with defaults, skill maps filled item by item
+    p["org_tree"] = rng.random() < 0.25  # parent_team / parent_workplace links (no effect on a run, part of the saved format)
+    p["sd_zero"] = rng.random() < 0.2  # explicit standard-deviation entries of 0.0 (deterministic skills, other code path)
+    p["empty_team"] = rng.random() < 0.06  # a team without workers
     p["assign_list"] = rng.random() < 0.15  # workflow built with `wf.task_list = [...]` (parent_workflow set lazily)
     p.update(focus)
     if not p["comps"]:
@@ -245,6 +248,24 @@ def gen_model(rng, p, n_tasks=None):
                 if rng.random() < 0.35:
                     f["abs"] = gen_absence(rng, 14, rng.randint(1, 4))
     m = {"tasks": tasks, "deps": deps, "teams": teams, "comps": comps, "wps": wps}
+    if p.get("org_tree"):
+        for k in range(1, len(teams)):
+            if rng.random() < 0.6:
+                teams[k]["parent"] = rng.randrange(k)
+        for k in range(1, len(wps)):
+            if rng.random() < 0.6:
+                wps[k]["parent"] = rng.randrange(k)
+    if p.get("sd_zero"):
+        for tm in teams:
+            for w in tm["workers"]:
+                if w["skills"] and rng.random() < 0.5:
+                    w["sd"] = {k: 0.0 for k in list(w["skills"])[:2]}
+        for wp in wps:
+            for f in wp["facs"]:
+                if f["skills"] and rng.random() < 0.5:
+                    f["sd"] = {k: 0.0 for k in list(f["skills"])[:2]}
+    if p.get("empty_team") and len(teams) < 3:
+        teams.append({"id": "m%d" % len(teams), "targets": [i for i in range(n) if rng.random() < 0.3], "workers": []})
     if p.get("reg_shuffle"):
         reg = [["team", i] for i in range(len(teams))] + [["wp", i] for i in range(len(wps))]
         rng.shuffle(reg)
@@ -295,7 +316,7 @@ def gen_cfg(rng, p, max_time=None):
         "rule": rng.randrange(9) if rng.random() < 0.8 else 0,
         "absence": gen_absence(rng, 16, rng.randint(1, 6)) if p["proj_abs"] else [],
         "auto_flag": rng.random() < 0.5,
-        "max_time": max_time or wchoice(rng, [(3, 1), (8, 2), (25, 3), (40, 6), (70, 2)]),
+        "max_time": max_time or wchoice(rng, [(0, 0.3), (1, 0.4), (3, 1), (8, 2), (25, 3), (40, 6), (70, 2)]),
     }
     return cfg
 
@@ -384,7 +405,7 @@ def gen_feasible(rng, p):
         if t.get("auto") or i in has_ffsf_in:
             continue
         if not eligible_workers(m, i):
-            cands = [tm for tm in m["teams"] if not any(set(tm["targets"]) & has_ffsf_in)]
+            cands = [tm for tm in m["teams"] if tm["workers"] and not any(set(tm["targets"]) & has_ffsf_in)]
             if not cands:
                 w = {"id": "w%d" % nextw, "skills": {}, "fskills": {}, "cost": rng.choice(COST)}
                 nextw += 1
